@@ -89,14 +89,16 @@ func (s Schema) BuildWithIndexes(clientIdx map[string][]model.ClientIndex) (*DB,
 	}
 	db := &DB{Spec: s, Schema: schema, types: map[string]reflect.Type{}, field: map[string]map[string]int{}}
 	models := map[string]model.Model{}
-	for _, t := range s.Tables {
+	for ti, t := range s.Tables {
+		// field names carry the table index: identical field lists would
+		// otherwise give identical reflect types for different tables
 		fields := []reflect.StructField{{
 			Name: "UUID", Type: reflect.TypeOf(""), Tag: reflect.StructTag(`ovsdb:"_uuid" json:"_uuid"`),
 		}}
 		idx := map[string]int{"_uuid": 0}
 		for i, c := range t.Cols {
 			fields = append(fields, reflect.StructField{
-				Name: fmt.Sprintf("F%d", i),
+				Name: fmt.Sprintf("T%dF%d", ti, i),
 				Type: c.NativeType(),
 				Tag:  reflect.StructTag(fmt.Sprintf(`ovsdb:"%s" json:"%s"`, c.Name, c.Name)),
 			})
